@@ -655,6 +655,9 @@ func ruleC03Freeze(p *Prog, a *Anchors, ba *banAnchors, r *Report) {
 					return !pol && isFreezeRead(c, ba.freeze)
 				})
 				exists := Guarded(in, func(c ssa.Value, pol bool) bool {
+					if call, ok := c.(*ssa.Call); ok && pol && call.Common().StaticCallee() != nil && existsPredicate(p, call.Common().StaticCallee(), bf.reg) && p.VN(call.Common().Args[0]) == p.VN(mu.Key) {
+						return true
+					}
 					lk := lookupCommaOk(c)
 					return pol && lk != nil && isLoadOfGlobal(lk.X, bf.reg) && p.VN(lk.Index) == p.VN(mu.Key)
 				})
